@@ -72,6 +72,8 @@ def is_connected(n, E):
 
 
 def dist_matrix(n, E):
+    if n > 24:
+        return dist_matrix_bfs(n, E)
     INF = 10 ** 6
     D = [[0 if i == j else INF for j in range(n)] for i in range(n)]
     for a, b in E:
@@ -82,6 +84,64 @@ def dist_matrix(n, E):
                 if D[i][k] + D[k][j] < D[i][j]:
                     D[i][j] = D[i][k] + D[k][j]
     return D
+
+
+def dist_matrix_bfs(n, E):
+    adj = [[] for _ in range(n)]
+    for a, b in E:
+        adj[a - 1].append(b - 1); adj[b - 1].append(a - 1)
+    D = []
+    for s in range(n):
+        d = [10 ** 6] * n
+        d[s] = 0
+        q = [s]
+        for x in q:
+            for y in adj[x]:
+                if d[y] > d[x] + 1:
+                    d[y] = d[x] + 1; q.append(y)
+        D.append(d)
+    return D
+
+
+def many_vertices_items(rng, owner, quick, reprs=None):
+    """Graphs with MORE THAN 127 VERTICES AND A SMALL DIAMETER (stars, double stars, brooms, wheels, a clique): the distance matrix is
+    stored in the smallest integer type that holds the DIAMETER while vertex counts, row frequencies and sort keys exceed it.  Decided
+    by certificates verified in TLC: the distance matrices (CertMetric), a relabelling (true distance 0) or a pair of explicit maps
+    (their distortion bounds the distance from above); raising on these connected inputs is a violation."""
+    def star(n):
+        return (n, [(1, i) for i in range(2, n + 1)])
+    def dstar(n, k):   # two adjacent centres with k and n-2-k leaves
+        return (n, [(1, 2)] + [(1, i) for i in range(3, 3 + k)] + [(2, i) for i in range(3 + k, n + 1)])
+    def broom(n, h):   # path of h vertices whose end carries n-h leaves
+        return (n, [(i, i + 1) for i in range(1, h)] + [(h, i) for i in range(h + 1, n + 1)])
+    def wheel(n):
+        return (n, [(1, i) for i in range(2, n + 1)] + [(i, i + 1) for i in range(2, n)] + [(n, 2)])
+    sizes = [128, 129, 131, 150] if quick else [127, 128, 129, 130, 131, 140, 150, 180, 200, 256, 257, 300]
+    fams = []
+    for n in sizes:
+        fams += [star(n), dstar(n, rng.randint(1, n - 4)), broom(n, rng.randint(2, 5))]
+        if n <= 150:
+            fams.append(wheel(n))
+    if not quick:
+        fams.append((130, rand_connected(rng, 130, "clique")))
+    small = [(4, rand_connected(rng, 4, "path")), (6, rand_connected(rng, 6, "star")), (5, rand_connected(rng, 5, "cycle")), (7, rand_connected(rng, 7, "tree"))]
+    items = []
+    for t, g in enumerate(fams):
+        rep = rng.choice(reprs) if reprs else CANON
+        # (a) against a relabelled copy of itself: the relabelling is the certificate, the true distance is 0
+        E2, p = relabel(rng, g[0], g[1])
+        items.append(mk_pair_item(g, (g[0], E2), rep, rep, seed=t, order=[0, 0], exact=False, owner=owner, iso=p, hook=False))
+        # (b) against another member of the family: explicit maps (hub to hub, everything else spread over the leaves)
+        h = fams[(t + 3) % len(fams)]
+        def spread(a, b):
+            return [1 if i == 1 else 2 + (i - 2) % (b[0] - 1) for i in range(1, a[0] + 1)]
+        items.append(mk_pair_item(g, h, rep, CANON, seed=t, order=[0, 0], exact=False, owner=owner, cmaps=[spread(g, h), spread(h, g)], hook=False))
+        # (c) against a small graph in both argument orders: maps = everything to vertex 1 / spread
+        s = small[t % len(small)]
+        cm = [[1] * g[0], [1] * s[0]]
+        items.append(mk_pair_item(g, s, rep, CANON, seed=t, order=[0, 0], exact=False, owner=owner, cmaps=cm, hook=False))
+        items.append(mk_pair_item(s, g, CANON, rep, seed=t, order=[0, 0], exact=False, owner=owner, cmaps=[cm[1], cm[0]], hook=False))
+    return items
 
 
 def local_search_map(rng, DX, DY, iters=1500):
@@ -162,17 +222,18 @@ def validate(ctx, items, label, mine, nproc=12):
         else:
             own = "C17" if clause.startswith("C17") else ("C05" if clause.startswith("C05") else it.get("owner", "C05"))
             if own == mine:
-                ctx.failure({"clause": clause, "disconnected": bool(it.get("disconnected"))}, {"kind": "mgh", "job": it["job"], "exact": c.get("exact", 0), "owner": it.get("owner", "C05")})
+                ctx.failure({"clause": clause, "disconnected": bool(it.get("disconnected"))}, {"kind": "mgh", "job": it["job"], "exact": c.get("exact", 0), "owner": it.get("owner", "C05"),
+                                                                                                  "iso": c.get("iso") or None, "cmaps": [c["cmapXY"], c["cmapYX"]] if c.get("cmapXY") else None})
             else:
                 ctx.extra["failures_owned_by_other_property"] = ctx.extra.get("failures_owned_by_other_property", 0) + 1
                 ctx.traces_total += 1
 
 
-def mk_pair_item(gx, gy, rx, ry, seed, order, exact, owner, rng=None, iso=None, cmaps=None, disconnected=False):
+def mk_pair_item(gx, gy, rx, ry, seed, order, exact, owner, rng=None, iso=None, cmaps=None, disconnected=False, hook=True):
     job = dict(call="pair", graphs=[dict(n=gx[0], edges=gx[1], repr=rx), dict(n=gy[0], edges=gy[1], repr=ry)], seed=seed, order=order)
     algo = max(gx[0], gy[0]) <= 11   # the int8 sort key of the curvature pruning wraps beyond len*diam > 127
     return dict(job=job, owner=owner, disconnected=disconnected,
-                mk=lambda res: [pair_case(gx, gy, res, exact, iso=iso, cmaps=cmaps, algo=algo)])
+                mk=lambda res: [pair_case(gx, gy, dict(res, hooked=0) if not hook else res, exact, iso=iso, cmaps=cmaps, algo=algo)])
 
 
 def run_models(ctx, quick, mine):
